@@ -23,6 +23,7 @@ EXPLANATION = (
     "structure on every byte that occurs in valid UTF-8, equals the UTF-8 lead-byte table, so the two transports deliver the same characters."
     " R5 also: the stdin reader answers None only with nothing collected and only behind the end-of-input edge; token separators are read without assertion code and character-class predicates are reported. R9: a label's offset is parsed with 'sign required' and parse_integer honours it. R10: the argument reader's byte cursor is advanced by byte quantities only. R11: the integer parser uses no wrapping/saturating/overflowing arithmetic. R12: TryParse implementations strip their sigil once (no trim_*_matches). R13: the integer parser and its pre-classifier single out no characters beyond sign, #, radix letters and 0. R5 also: Stream::read and CommandReader::read hand the answer of the transport on unchanged (no Option-shaping call, no None of their own except behind the None of the transport)."
     " R14: behind the no-digit outcome of Radix::parse_digit in the integer parser no branch consults the offending character again (integer or label is decided by sign and prefix alone). R9 also accepts the sign request spelled as a test in front of the call (reached only for an empty text or one that starts with + or -)."
+    " R15: the naive type test in front of a typed argument admits exactly the token kinds the parser behind it produces (integer reader: Integer; memory-location reader: one kind per MemoryLocation variant)."
 )
 
 NOT_DECIDED = "the value denoted by every spelling of an integer or label (a grammar-level, value-quantified matter); invalid UTF-8 on stdin (outside the quantifier: strings)"
@@ -938,4 +939,39 @@ def run(ctx):
                           "behind `parse_digit(ch) == None` the integer parser branches on `%s`: whether a token such as `b1+1` is handed on to the label parser then "
                           "depends on the character after the digits, and `label+offset` stops working for labels that look like a prefixed integer" % expr_str(bad14[1], 80))
     ctx.need(nd14 >= 1, "the digit test of the integer parser (parse_digit with its None outcome)")
+    ctx.finish_rule()
+
+    # ------------------------------------------------------------------ R15
+    # the quick type test in front of a typed argument admits exactly the kinds of token the parser behind it can produce: an integer reader
+    # admits integers, a memory-location reader one kind per variant of MemoryLocation (Address = integer, PCOffset, Label). A kind admitted
+    # beyond that (a register where only memory can be named) turns `goto r3` into a label lookup, i.e. gives the register spelling a
+    # second reading in some commands
+    ctx.rule("C14.R15", "the naive type test admits exactly the token kinds the argument parser produces", floor=2)
+    NT = "lace::debugger::command::parse::naive::NaiveType"
+    ML = "lace::debugger::command::MemoryLocation"
+    KIND_OF = {"Address": "Integer", "PCOffset": "PCOffset", "Label": "Label", "Register": "Register"}
+    n15 = 0
+    for n, f in sorted(prog.fns.items()):
+        if f.bkind != "fn" or not n.startswith("lace::debugger::command::parse::"):
+            continue
+        for b, t, c in f.calls():
+            if not (c and c.endswith("::check_naive_type")) or not t.get("args"):
+                continue
+            acc = kit.resolve_promoteds(prog, f.expr(t["args"][0], 8))
+            got15 = sorted({x[1][2] for x in expr_walk(acc) if x[0] == "agg" and x[1][0] == "adt" and x[1][1] == NT})
+            parsers = {c2 for b2, t2, c2 in f.calls() if c2 and (c2.endswith("::try_parse") or c2.endswith("try_parse_signed"))}
+            want15 = None
+            if any("MemoryLocation" in p_ for p_ in parsers) and prog.adt(ML):
+                want15 = sorted({KIND_OF.get(v["name"], v["name"]) for v in prog.adt(ML)["variants"]})
+            elif any("Integer" in p_ for p_ in parsers):
+                want15 = ["Integer"]
+            n15 += 1
+            ctx.instance(1)
+            ok = want15 is not None and got15 == want15
+            ctx.oblig(ok, {"reader": short(n), "admits": got15, "parser produces": want15}, "equal sets")
+            if not ok:
+                ctx.violation("naive-kinds|%s" % short(n).rsplit("::", 1)[-1], sp_file_line(t.get("sp")),
+                              "`%s` admits the token kinds %s in front of a parser that produces %s: a token of a kind the parser does not know is read as "
+                              "something else (a register name as a label) instead of being refused as the wrong type" % (short(n), got15, want15))
+    ctx.need(n15 >= 2, "naive type tests in the argument readers (found %d)" % n15)
     ctx.finish_rule()
